@@ -42,6 +42,11 @@ func main() {
 		fmt.Fprintln(os.Stderr, "usage: govc check|baseline|dump|vc ...")
 		os.Exit(2)
 	}
+	os.Setenv("PATH", "/opt/veriftools/go1.26.8/bin:"+os.Getenv("PATH"))
+	os.Setenv("GOTOOLCHAIN", "local")
+	os.Setenv("GOFLAGS", "-mod=mod")
+	os.Setenv("GOPROXY", "off")
+	os.Setenv("GOSUMDB", "off")
 	cmd := os.Args[1]
 	fs := flag.NewFlagSet(cmd, flag.ExitOnError)
 	prop := fs.String("prop", "", "property id")
@@ -65,9 +70,30 @@ func main() {
 		sort.Strings(names)
 		for _, n := range names {
 			if strings.HasSuffix(n, *fnName) && strings.Contains(n, modPath) {
-				eng.funcs[n].WriteTo(os.Stdout)
+				if !*verbose {
+					eng.funcs[n].WriteTo(os.Stdout)
+				}
+				c := &FnCtx{eng: eng, fn: eng.funcs[n]}
+				fr := &frame{fn: eng.funcs[n], regs: map[ssa.Value]Val{}}
+				if len(fr.fn.Blocks) > 0 {
+					c.prepare(fr)
+					for _, li := range fr.loops {
+						var ph []string
+						for _, in := range li.head.Instrs {
+							if p, ok := in.(*ssa.Phi); ok {
+								ph = append(ph, p.Comment+"="+p.Name())
+							}
+						}
+						fmt.Printf("%s loop %d head block %d at %s phis %v\n", n, li.ord, li.head.Index, c.posString(loopPos(li)), ph)
+					}
+				}
 			}
 		}
+	case "replay":
+		fs2 := flag.NewFlagSet("replay", flag.ExitOnError)
+		file := fs2.String("file", "", "replay record")
+		fs2.Parse(os.Args[2:])
+		os.Exit(replayFile(*file))
 	case "check", "baseline":
 		os.Exit(runCheck(*root, *prop, *tier, cmd == "baseline", *verbose, *keep, *fnName))
 	default:
@@ -243,6 +269,7 @@ func runCheck(root, prop, tier string, makeBaseline, verbose, keep bool, onlyFn 
 	violations := 0
 	var lines []string
 	replayDir := filepath.Join(root, "replays", prop)
+	os.RemoveAll(replayDir)
 	os.MkdirAll(replayDir, 0o755)
 	var undecidedKeys []string
 	for _, o := range failed {
